@@ -127,3 +127,8 @@ package dnsutil
 //@   loop 1 invariant len(out) <= rangeidx && cap(out) == len(rrs) && forall j int :: {out[j]} 0 <= j && j < len(out) ==> rrInZone(out[j], zone)
 //@   loop 1 invariant forall i int :: {rrs[i]} 0 <= i && i < len(rrs) ==> rrs[i] != nil && (dyntype(rrs[i], *dns.NSEC) ==> as(rrs[i], *dns.NSEC) != nil)
 //@   ensures forall j int :: {result[j]} 0 <= j && j < len(result) ==> rrInZone(result[j], zone)
+//@
+//@ # attaching an Extended DNS Error touches only the OPT record's option list
+//@ func SetEDE
+//@   requires msg != nil
+//@   modifies heap(dns.OPT.Option), allelems(dns.EDNS0)
